@@ -32,6 +32,7 @@ import (
 	"runtime"
 	"runtime/debug"
 	"sort"
+	"strconv"
 	"strings"
 	"sync"
 	"sync/atomic"
@@ -702,6 +703,20 @@ func main() {
 		}
 	}
 	w0.close()
+	if n, _ := strconv.Atoi(os.Getenv("C02_BENCH")); n > 0 {
+		// development aid: cost of one in-process verification of each original
+		env.inProcess = true
+		wb := newWorker(env, 98)
+		for _, a := range arts {
+			t0 := time.Now()
+			for i := 0; i < n; i++ {
+				wb.verify(env, a, a.Signed, nil)
+			}
+			fmt.Printf("BENCH %-70s %8d bytes %8.0f us/verify\n", a.ID(), len(a.Signed), float64(time.Since(t0).Microseconds())/float64(n))
+		}
+		cleanup()
+		os.Exit(0)
+	}
 	buildSecs := time.Since(start).Seconds()
 
 	var targets []flipTarget
